@@ -106,8 +106,15 @@ def shapes(slice_i, n):
             yield {"model": spec, "points": None, "via_not": via}
 
 
+def mixed(slice_i, n):
+    from vf import strategies as S_
+    for spec in S_.mixed_shapes(slice_i, n):
+        for via in (False, True):
+            yield {"model": spec, "points": None, "via_not": via}
+
+
 def parts(tier):
-    return [Part("shapes%d" % i, enumerate_cases=(lambda t, i=i: shapes(i, 4)), check=check, time_quick=120.0) for i in range(4)] + [
+    return [Part("mixed%d" % i, enumerate_cases=(lambda t, i=i: mixed(i, 8)), check=check, time_quick=150.0) for i in range(8)] + [Part("shapes%d" % i, enumerate_cases=(lambda t, i=i: shapes(i, 4)), check=check, time_quick=120.0) for i in range(4)] + [
         Part("thresholds", strategy=lambda t: focus(t), check=check, quick=(2, 400), thorough=(4, 3000)),
         Part("small", strategy=lambda t: strat(t, "small"), check=check, quick=(6, 350), thorough=(12, 2500)),
         Part("large", strategy=lambda t: strat(t, "large"), check=check, quick=(2, 250), thorough=(4, 1500)),
